@@ -32,7 +32,8 @@ def ord_expr(o: dict) -> str:
     return f"order({o['k']}={o['x']!r})"
 
 
-def class_source(case: dict, hier: bool = False, resolver: bool = False, malias: bool = False, annotated: bool = False) -> str:
+def class_source(case: dict, hier: bool = False, resolver: bool = False, malias: bool = False, annotated: bool = False,
+                 initvar: bool = False) -> str:
     """With `hier` (no class-level override), the class is split anyway: the first fields and the FIRST serialized
     method are declared by a base class -- the order of the elements is the same."""
     elts = case["elts"]
@@ -40,7 +41,7 @@ def class_source(case: dict, hier: bool = False, resolver: bool = False, malias:
     methods = [e for e in elts if e["method"]]
     base_ov, sub_ov = case.get("ovs", [[], []])
     split = (len(fields) + 1) // 2 if (base_ov or sub_ov or hier) else len(fields)
-    lines = ["from dataclasses import dataclass, field", "from typing import Annotated", "from apischema import order, serialized",
+    lines = ["from dataclasses import dataclass, field, InitVar", "from typing import Annotated", "from apischema import order, serialized",
              "from apischema.graphql import resolver", ""]
 
     def ov_deco(ov):
@@ -52,6 +53,9 @@ def class_source(case: dict, hier: bool = False, resolver: bool = False, malias:
 
     def fld(e):
         oe = ord_expr(e["ord"])
+        if initvar and len(fields) >= 2 and e is fields[-2]:
+            # an InitVar pseudo-field declared BETWEEN regular fields: an element of the deserialization views, at its place
+            return f"    {e['name']}: InitVar[int] = field(default=0" + (f", metadata={oe}" if oe else "") + ")"
         if annotated and oe:      # the ordering carried by the annotation instead of the field metadata
             return f"    {e['name']}: Annotated[int, {oe}] = 0"
         return f"    {e['name']}: int = field(default=0" + (f", metadata={oe}" if oe else "") + ")"
@@ -85,7 +89,8 @@ def class_source(case: dict, hier: bool = False, resolver: bool = False, malias:
     return "\n".join(lines) + "\n"
 
 
-def views(case: dict, hier: bool = False, resolver: bool = False, malias: bool = False, annotated: bool = False) -> Dict[str, Any]:
+def views(case: dict, hier: bool = False, resolver: bool = False, malias: bool = False, annotated: bool = False,
+          initvar: bool = False) -> Dict[str, Any]:
     """The four views of the order in the real code."""
     import apischema.cache
     from apischema import serialize
@@ -98,8 +103,13 @@ def views(case: dict, hier: bool = False, resolver: bool = False, malias: bool =
     sys.modules[name] = mod
     out: Dict[str, Any] = {}
     try:
-        exec(compile(class_source(case, hier, resolver, malias, annotated), f"<{name}>", "exec"), mod.__dict__)
+        exec(compile(class_source(case, hier, resolver, malias, annotated, initvar), f"<{name}>", "exec"), mod.__dict__)
         K = mod.K
+        if initvar:      # the InitVar is no element of the output views: only the deserialization schema is observed
+            try:
+                return {"deserialization_schema": list(deserialization_schema(K).get("properties", {}))}
+            except Exception as exc:
+                return {"deserialization_schema": "error:" + type(exc).__name__}
         for view, fn in (("serialize", lambda: list(serialize(K, K()))),
                          ("serialization_schema", lambda: list(serialization_schema(K).get("properties", {}))),
                          ("deserialization_schema", lambda: list(deserialization_schema(K).get("properties", {})))):
@@ -145,15 +155,17 @@ def main() -> int:
         cases = [json.loads(json.loads(p)) for p in r.prints if p.startswith('"')]
         if not thorough and len(cases) > 6000:
             cases = rng.sample(cases, 6000)
-        variants = [(c, False, False, False, False) for c in cases]
+        variants = [(c, False, False, False, False, False) for c in cases]
         if NM >= 2 and not ov:       # the same specifications with the elements spread over a base class and the class
-            variants += [(c, True, False, False, False) for c in cases]
+            variants += [(c, True, False, False, False, False) for c in cases]
         if NM == 1 and N == 3 and not ov:   # ... and with the method declared as @resolver(serialized=True, order=...)
-            variants += [(c, False, True, False, False) for c in cases]
+            variants += [(c, False, True, False, False, False) for c in cases]
             # ... with the method aliased, with the field orderings carried by Annotated[...]
-            variants += [(c, False, False, True, False) for c in cases] + [(c, False, False, False, True) for c in cases]
-        for c, hier, as_resolver, malias, annotated in variants:
-            got = views(c, hier, as_resolver, malias, annotated)
+            variants += [(c, False, False, True, False, False) for c in cases] + [(c, False, False, False, True, False) for c in cases]
+            # ... with the last but one field declared as an InitVar (deserialization views)
+            variants += [(c, False, False, False, False, True) for c in cases]
+        for c, hier, as_resolver, malias, annotated, initvar in variants:
+            got = views(c, hier, as_resolver, malias, annotated, initvar)
             n += 1
             distinct.add(json.dumps([c["elts"], c.get("ovs")]))
             for view, actual in got.items():
@@ -173,7 +185,8 @@ def main() -> int:
                                       finding_key="F-order-orphans")
                     continue
                 rep.violation(f"{view}: order {actual} instead of {expected} (well-formed={wf})",
-                              {"case": c, "view": view, "expected": expected, "actual": actual, "hier": hier, "resolver": as_resolver, "source": class_source(c, hier, as_resolver, malias, annotated)})
+                              {"case": c, "view": view, "expected": expected, "actual": actual, "hier": hier, "resolver": as_resolver, "initvar": initvar,
+                               "source": class_source(c, hier, as_resolver, malias, annotated, initvar)})
             if n % 1501 == 1:
                 rep.sample({"elts": c["elts"], "ovs": c.get("ovs"), "expected": c["order"], "views": got})
     # negative model check: the transcription of sort_by_order loses orphans / cycles
